@@ -1654,6 +1654,9 @@ def declare_rules(ck):
     ck.rule("E10.target-numbering", "whole TargetRefineWrapper<Shape> run: target rows follow the part's own fine numbering, target values the parent's fine numbering (both = numbering of E10.numbering)", min_instances=28)
     ck.rule("E10.simple-target", "parts without topology (SimpleTargetRefineWrapper run): the fine cd-entities of part entity i are stored at the part's own fine numbering and mapped bijectively "
             "onto the children of parent entity target[i] in the parent's fine numbering", min_instances=36)
+    ck.rule("E10.dual-adapt", "DualAdaptor::adapt (refine_unique with AdaptMode::dual): the only fine vertices modified are the cell midpoints, numbered like the vertex refiner numbers them "
+            "(sum of the coarse entity counts of lower dimension + i), each written once (cleared first) as the mean of the facet midpoints of its own cell, addressed by the facet-midpoint offset "
+            "of the same numbering (any hexahedral mesh with AdaptMode::dual otherwise gets wrong geometry)", min_instances=6)
     ck.rule("E10.flip-induced", "CongruencyMapping<S,1>::flip permutes the edges-at-face tuple by the edge permutation that CongruencyMapping<S,0>::flip induces through FaceIndexMapping<S,1,0> "
             "(FacetFlipper applies both to every negatively oriented boundary facet: otherwise edges-at-face of such facets are inconsistent, e.g. a single tetrahedron after deduct_topology_from_top)", min_instances=2)
     ck.rule("E10.flip-reverses", "CongruencyMapping<S,0>::flip is a reflection (orientation reversing symmetry) of the shape, so a flipped boundary facet becomes positively oriented", min_instances=4)
@@ -1666,6 +1669,117 @@ def declare_rules(ck):
     if ck.tier == "thorough":
         ck.rule("E10.build-same", "the anchored functions instantiated by the repository's own refinement tests are (structurally) the functions analysed in the driver TU", min_instances=5)
     ck.rule("E10.no-orphan", "every fine entity of lower dimension created in the closure of the coarse cell is referenced by some fine cell", min_instances=83)
+
+
+# =================================================================================================
+# dual adaption of the refined vertex set (Intern::DualAdaptor, RootMeshNode::refine_unique(AdaptMode::dual))
+# =================================================================================================
+
+class DMesh:
+    """coarse ('in') or fine mesh argument of DualAdaptor::adapt"""
+
+    def __init__(self, ctx, fine):
+        self.ctx, self.fine = ctx, fine
+
+    def mcall(self, ev, name, node, args):
+        if name == "get_num_entities" and len(args) == 1 and not self.fine:
+            return Lin.atom(("num", "in", rt.lin(args[0]).as_int()))
+        if name == "get_vertex_set" and self.fine:
+            return FineVtxSet(self.ctx)
+        if name == "get_index_set" and not self.fine:
+            ta = targs(node.get("cfull", ""))
+            if len(ta) == 2:
+                return IdxSet2(self.ctx, "in", int(ta[0]), int(ta[1]))
+        raise Unsupported("%s mesh::%s (line %s)" % ("fine" if self.fine else "coarse", name, node.get("l")))
+
+
+class IdxSet2(IdxSet):
+    def op_call(self, ev, args, node):
+        if len(args) != 2:
+            raise Unsupported("index set called with %d arguments" % len(args))
+        return self.op_index(ev, args[0], node).op_index(ev, args[1], node)
+
+
+class FineVtxSet:
+    def __init__(self, ctx):
+        self.ctx = ctx
+
+    def op_index(self, ev, i, node):
+        row = rt.lin(i)
+        key = repr(row)
+        if key not in self.ctx.vtx:
+            self.ctx.vtx[key] = FineVtx(row, node.get("l") if node else None)
+        return self.ctx.vtx[key]
+
+
+class Scaled:
+    def __init__(self, idx, coef):
+        self.idx, self.coef = idx, coef
+
+
+class FineVtx(VtxAcc):
+    """vertex of the refined mesh: may be read (as a summand) and redefined"""
+
+    def __init__(self, row, line):
+        VtxAcc.__init__(self, row, line, True)
+        self.written = False
+
+    def mcall(self, ev, name, node, args):
+        self.written = True
+        return VtxAcc.mcall(self, ev, name, node, args)
+
+    def op_bin(self, ev, op, other, left, node):
+        if op == "*" and not isinstance(other, (FineVtx, Scaled)):
+            return Scaled(self.row, other if isinstance(other, Fraction) else Fraction(rt.lin(other).as_int()))
+        if op in ("+=", "-=") and left and isinstance(other, (Scaled, FineVtx)):
+            self.written = True
+            if self.coef is None:
+                self.problems.append("sum onto a vertex that was not cleared first (line %s)" % node.get("l"))
+                self.coef = {}
+            idx, c = (other.idx, other.coef) if isinstance(other, Scaled) else (other.row, Fraction(1))
+            self.coef[idx] = self.coef.get(idx, Fraction(0)) + (c if op == "+=" else -c)
+            return self
+        raise Unsupported("vertex operator%s (line %s)" % (op, node.get("l")))
+
+
+def check_dual_adaptor(T, ck, facts, vbases):
+    for sh in SHAPES:
+        D = sh[1]
+        fns = [f for f in facts.functions if f.tk != "pattern" and f.name == "adapt" and f.body is not None and
+               re.match(r"^FEAT::Geometry::Intern::DualAdaptor<FEAT::Geometry::ConformalMesh<FEAT::Shape::%s, " % re.escape(sname(sh)), f.cls)]
+        key = "DualAdaptor<%s>" % sname(sh)
+        if len(fns) != 1:
+            ck.incomplete("E10.dual-adapt", "%s::adapt not instantiated (%d)" % (key, len(fns)))
+            continue
+        fn = fns[0]
+        ctx = Ctx()
+        ev = make_eval(facts, ctx)
+        try:
+            ev.run(fn, [DMesh(ctx, True), DMesh(ctx, False)])
+            written = [v for v in ctx.vtx.values() if v.written]
+            if not written:
+                ck.ob("E10.dual-adapt", key, True, "no vertex of the refined mesh is modified", fn.file, fn.line)
+                continue
+            nb = vbases.get(sh)
+            if nb is None or D not in nb or (D - 1) not in nb:
+                ck.incomplete("E10.dual-adapt", "%s: vertex numbering of the refined %s mesh not available" % (key, sname(sh)))
+                continue
+            prob = []
+            nf = T.ft[(sh, D - 1)]
+            for v in written:
+                atom, c, k, base = split_row(v.row)
+                p = loop_dim(ev, atom)
+                prob += v.problems
+                if p != D or c != 1 or k != 0 or base != nb[D]:
+                    prob.append("modifies fine vertex %s; the vertices created by the coarse %d-cells are numbered %s + i" % (v.row, D, nb[D]))
+                    continue
+                want = {nb[D - 1] + Lin.atom(("ent", "in", D, D - 1, repr(Lin.atom(atom)), j)): Fraction(1, nf) for j in range(nf)}
+                if v.coef != want:
+                    got = ", ".join("%s*x[%s]" % (cf, kx) for kx, cf in sorted((v.coef or {}).items(), key=repr))
+                    prob.append("cell vertex = %s; expected the mean of the %d facet midpoints x[%s + facet(i,j)] of the same cell" % (got, nf, nb[D - 1]))
+            ck.ob("E10.dual-adapt", key, not prob, "; ".join(prob[:3]) or "vertex %s + i := mean of the %d facet midpoints %s + facet(i,j)" % (nb[D], nf, nb[D - 1]), fn.file, fn.line)
+        except Unsupported as e:
+            ck.incomplete("E10.dual-adapt", "%s: %s" % (key, e))
 
 
 # =================================================================================================
@@ -2064,6 +2178,7 @@ def analyse(ck, facts, second_pass=False):
     check_targets(T, ck, facts, numbering)
     check_simple_targets(T, ck, facts, numbering)
     check_child_geometry(T, ck, facts)
+    check_dual_adaptor(T, ck, facts, vbases)
     if not second_pass:
         check_callsites(ck, facts)
         check_flips(T, ck, facts)
